@@ -479,6 +479,12 @@ def _binary(a, b, f, what="op"):
     if b.shape == (1, 1):
         y = b.e[0]
         return cls._raw(a.rows, a.cols, [f(x, y) for x in a.e])
+    if a.rows == b.rows and a.cols and b.cols and a.rows:
+        # CasADi >= 3.6: horizontal repetition when the column counts are multiples (validated natively)
+        if a.cols % b.cols == 0:
+            return _binary(a, repmat(b, 1, a.cols // b.cols), f, what)
+        if b.cols % a.cols == 0:
+            return _binary(repmat(a, 1, b.cols // a.cols), b, f, what)
     if a.numel() == 0 and b.numel() == 0 and a.rows == b.rows:
         # CasADi quirk (validated natively): 0x1 + 0x2 -> 0x2
         return cls._raw(a.rows, max(a.cols, b.cols), [])
@@ -879,6 +885,9 @@ class MX(Mat):
                 self.rows, self.cols, self.e = a.rows, a.cols, [0.0] * a.numel()
             elif isinstance(a, (list, tuple, range, _np.ndarray)):
                 self.rows, self.cols, self.e = _from_nested(a)
+            elif hasattr(a, "__casadi_model__"):
+                m_ = a.__casadi_model__()
+                self.rows, self.cols, self.e = m_.rows, m_.cols, list(m_.e)
             else:
                 self.rows, self.cols, self.e = 1, 1, [entry(a)]
         elif len(args) == 2 and isinstance(args[0], Sparsity):
@@ -1249,7 +1258,7 @@ def evalf(a):
     e = []
     for x in a.e:
         if isnum(x):
-            e.append(float(x))
+            e.append(x)          # exact rationals stay exact
         elif is_numeric_entry(x):
             try:
                 e.append(to_float(x))
